@@ -274,3 +274,15 @@ func (r Relabel) After(x *Exec, op *Op, res *Res) {
 	r.guard(func() { r.Inner.After(x, op, res) })
 }
 func (r Relabel) End(x *Exec) { r.guard(func() { r.Inner.End(x) }) }
+func (r Relabel) EndOfBlock(x *Exec) {
+	if e, ok := r.Inner.(interface{ EndOfBlock(x *Exec) }); ok {
+		r.guard(func() { e.EndOfBlock(x) })
+	}
+}
+func (r Relabel) AfterHalt(x *Exec, op *Op, res *Res) {
+	if h, ok := r.Inner.(interface {
+		AfterHalt(x *Exec, op *Op, res *Res)
+	}); ok {
+		r.guard(func() { h.AfterHalt(x, op, res) })
+	}
+}
